@@ -24,3 +24,9 @@ CHECKS["C08"] = dict(
     text="_load_and_process_source: for arbitrary column mappings, select lists and rename tables the result is exactly the selected columns mapped through the rename table with values preserved, and a missing selected column or any collision after rename is rejected (both loops cut by invariants). expand_run_space/_expand_entries are NOT proved: a bounded stand-in compares them with the documented Expand function over small specifications (bound in evidence) and measures materialisation under an exceeded cap.",
     note="Proved part assumes the file system, parsers and SHA-256 abstract. The bounded part is exploration, not proof. Known finding C08-KF1 (cap checked after materialising a block's product) is open.",
     ref="DESIGN.md section 7 (C08)")
+CHECKS["C13"] = dict(
+    level="proof",
+    technique="contract-based deductive verification of _coerce_int, _expected_nodes (loop invariant), ingest dispatch and a z3 commutation lemma over the abstract view; verdict rules and ingesters only by a bounded run-time-contract tier over real traces",
+    text="Proved for all inputs: _coerce_int (int/None totality), _expected_nodes (= set of node_uuid of dict entries, None iff empty; loop invariant), TraceAggregator.ingest (each record_type reaches exactly its ingester, unknown types change nothing), and pairwise commutation/idempotence of the five update functions on the abstract run view. finalize_run/finalize_launch and the _ingest_* bodies are NOT proved (symbolic execution does not terminate within budget): a bounded tier ingests every prefix and seeded permutations of real traces (ok run, failing run, launch) and compares with the documented verdict.",
+    note="The bounded part is exploration, not proof; the lift from pairwise commutation to all permutations (List.Perm.foldl_eq') and the link code-update = abstract update for the ingesters are assumptions.",
+    ref="DESIGN.md section 7 (C13)")
